@@ -400,6 +400,15 @@ class World:
                 self.truth.marks[aname] = op['server']
         self.op_srv_state({'name': op['server'], 'state': 'frozen'})
 
+    def op_freeze_holder(self, op):
+        """Freeze (marking nothing) the server that now holds the first of
+        the named instances."""
+        for aname in op['apps']:
+            app = self.cell.apps.get(aname)
+            if app is not None and app.server in self.servers:
+                self.op_unschedule({'server': app.server, 'apps': []})
+                return
+
     def op_advance(self, op):
         self.clock.advance(op['dt'])
         if op['dt'] >= 3600:
@@ -646,7 +655,7 @@ OP_WEIGHTS = [
     ('resize_server', 2), ('alloc', 3), ('group', 4), ('group_remove', 1),
     ('blacklist', 3), ('renew', 2), ('unschedule', 2), ('advance', 8),
     ('tick', 1), ('cycle', 26), ('probe', 0), ('reload_cell', 2),
-    ('add_pod', 1), ('lease_squeeze', 2),
+    ('add_pod', 1), ('lease_squeeze', 2), ('stale_mark', 2),
 ]
 
 
@@ -733,6 +742,29 @@ class Generator:
         if not names:
             return None
         return self.rng.choice(names)
+
+    def g_stale_mark(self, world):
+        """An instance is marked for unscheduling on a server that is frozen
+        and then goes down before the next cycle; it is re-placed through the
+        retention path, and its new server is frozen later with nothing
+        marked: it must stay there."""
+        rng = self.rng
+        cands = sorted(n for n, s in world.servers.items()
+                       if s.apps and s.state is scheduler.State.up)
+        if not cands:
+            return None
+        sname = rng.choice(cands)
+        apps = sorted(world.servers[sname].apps)
+        marked = rng.sample(apps, rng.randint(1, min(2, len(apps))))
+        wait = max([float(world.truth.apps[a]['drt'] or 0)
+                    for a in marked]) + 1.0
+        self.follow.extend([
+            {'op': 'srv_state', 'name': sname, 'state': 'down'},
+            {'op': 'advance', 'dt': wait},
+            {'op': 'cycle'},
+            {'op': 'freeze_holder', 'apps': marked},
+            {'op': 'cycle'}])
+        return {'op': 'unschedule', 'server': sname, 'apps': marked}
 
     def g_lease_squeeze(self, world):
         """A running leased instance whose server is by now too close to its
